@@ -213,6 +213,15 @@ def dominates(a, b):
         if isinstance(p, ast.Try) and f == "finalbody":
             cur = p
             continue
+        if isinstance(p, ast.Try) and f in ("body", "orelse") and all(terminates(h.body) for h in p.handlers):
+            # every handler leaves: whatever comes after the try (and its else-branch, for the body) is only reached when body and else-branch completed
+            if any(c is p for c in chain):
+                # b sits inside the same try statement: only its else-branch (for a in the body) is behind a
+                in_else = any(any(c is s_ for s_ in p.orelse) for c in chain)
+                in_final = any(any(c is s_ for s_ in p.finalbody) for c in chain)
+                return f == "body" and in_else and not in_final
+            cur = p
+            continue
         return False
 
 
